@@ -145,7 +145,7 @@ class Vector(AutoSerialize):
         fields: List[str],
         units: List[str],
         name: str,
-        metadata: dict = {},
+        metadata: dict | None = None,
         _token: object | None = None,
     ) -> None:
         if _token is not self._token:
@@ -156,7 +156,7 @@ class Vector(AutoSerialize):
         self.units = units
         self.name = name
         self._data = nested_list(self.shape, fill=None)
-        self._metadata = metadata
+        self._metadata = {} if metadata is None else metadata
 
     @classmethod
     def from_shape(
@@ -706,6 +706,7 @@ class Vector(AutoSerialize):
             units=self.units,
         )
         vector_copy._data = copy.deepcopy(self._data)
+        vector_copy._metadata = copy.deepcopy(self._metadata)
         return vector_copy
 
     def flatten(self) -> NDArray:
